@@ -145,3 +145,13 @@ add('M39', x4('SRC/?snode_dfs.c', "		if ( nextl >= nzlmax ) {", "		if ( nextl > 
 add('M39b', [('SRC/memory.c', "    for (; d_ptr >= dest; --s_ptr, --d_ptr ) *d_ptr = *s_ptr;", "    for (; d_ptr > dest; --s_ptr, --d_ptr ) *d_ptr = *s_ptr;")], ['C07'], note='in-place shift drops byte 0')
 add('M39c', x4('SRC/?memory.c', "		if ( type < LSUB ) {\n		    Glu->lsub = expanders[LSUB].mem =", "		if ( type < UCOL ) {\n		    Glu->lsub = expanders[LSUB].mem ="), ['C07'],
     note='growing UCOL does not advance lsub')
+
+# ---------------------------------------------------------------- C10
+add('M20', [('SRC/get_perm_c.c', "	for (i = 0; i < n; ++i) --perm_c[i];\n", "")], ['C10'], note='perm_c left 1-based after genmmd_')
+add('M20b', [('SRC/get_perm_c.c', "	for (i = 0; i <= n; ++i) ++b_colptr[i];", "	for (i = 0; i < n; ++i) ++b_colptr[i];")], ['C10'], note='last column pointer not shifted to 1-based')
+add('M21', [('SRC/sp_preorder.c', "	    for (i = 0; i < n; ++i) iwork[post[i]] = ACstore->colend[i];", "	    for (i = 0; i < n; ++i) iwork[perm_c[i]] = ACstore->colend[i];")], ['C10'],
+    note='colend relabelled by perm_c instead of post')
+add('M21b', [('SRC/sp_preorder.c', "	if ( options->SymmetricMode == NO ) {", "	if ( options->SymmetricMode == NO || n > 0 ) {")], ['C10'], note='post-order also in symmetric mode')
+add('M21c', [('SRC/get_perm_c.c', "	at_plus_a(n, Astore->nnz, Astore->colptr, Astore->rowind,\n		  &bnz, &b_colptr, &b_rowind);\n#if ( PRNTlevel>=1 )\n	printf(\"Use minimum degree ordering on A'+A.\\n\");",
+              "	getata(m, n, Astore->nnz, Astore->colptr, Astore->rowind,\n		  &bnz, &b_colptr, &b_rowind);\n#if ( PRNTlevel>=1 )\n	printf(\"Use minimum degree ordering on A'+A.\\n\");")], ['C10'],
+    note='MMD_AT_PLUS_A orders A\'A')
